@@ -19,6 +19,9 @@ def build_case(r, name, meta, tup, ff, md, sp, cosmo, n=6, override=True, delta=
     m = 10 ** np.array([r.uniform(9, 16) for _ in range(n)])
     neff = np.array([r.uniform(-2.9, -0.1) for _ in range(n)])
     delta = r.choice([200, 300, 400, 600, 800, 1200, 1600, 2400, 3200, 250.0, 500.0, 1000.0, 2000.5, 210.3, 200.5, 400.97, 1600.3, 800.999]) if delta is None else delta   # also strictly inside (d, d+1) above a tabulated d
+    if getattr(build_case, "force_cosmo", None) is not None:
+        cosmo, z = build_case.force_cosmo
+        nu2 = nu2   # (inputs unchanged; only the cosmology and redshift are pinned)
     if getattr(build_case, "force_delta", None) is not None:
         delta = build_case.force_delta
     mdef = md.SOMean(overdensity=delta)
@@ -33,10 +36,20 @@ def build_case(r, name, meta, tup, ff, md, sp, cosmo, n=6, override=True, delta=
         ks = [k for k, v in d.items() if isinstance(v, (int, float)) and not isinstance(v, bool) and k not in ("z_hi", "max_z")]
         for k in r.sample(ks, min(len(ks), r.randint(1, 4))):
             params[k] = float(d[k]) * r.uniform(0.9, 1.1) if d[k] != 0 else r.uniform(-0.05, 0.05)
-    if "A" in cls._defaults and name not in ("Tinker08",) and (r.random() < 0.25 or getattr(build_case, "force_none", False)) and "isnone:p.A" in free_vars(t):
+    if cls._defaults.get("A", 0) is None and override and r.random() < 0.5:
+        params["A"] = r.uniform(0.2, 0.4)          # a default of None (automatic amplitude) overridden by a number
+    if "A" in cls._defaults and name not in ("Tinker08",) and "A" not in params and (r.random() < 0.25 or getattr(build_case, "force_none", False)) and "isnone:p.A" in free_vars(t):
         params["A"] = None          # a meaningful None: the amplitude that normalises the mass fraction
     with LocalsTracer("fitting_functions") as tr:
         obj = cls(nu2=nu2, m=m, z=z, n_eff=neff, mass_definition=mdef, cosmo=cosmo, delta_c=dc, **params)
+    iso_f = None
+    if getattr(build_case, "force_cosmo", None) is not None:
+        # the same instance inputs with the cosmology under a name of its own (physically identical): the value is a function of the inputs only
+        build_case._iso = getattr(build_case, "_iso", 0) + 1
+        try:
+            iso_f = np.asarray(cls(nu2=nu2, m=m, z=z, n_eff=neff, mass_definition=mdef, cosmo=cosmo.clone(name=f"verif-iso-{build_case._iso}"), delta_c=dc, **params).fsigma, float)
+        except Exception:
+            iso_f = None
     loc = {}
     for c in meta["mro"]:
         loc.update(tr.locals.get(c, {}))
@@ -77,7 +90,7 @@ def build_case(r, name, meta, tup, ff, md, sp, cosmo, n=6, override=True, delta=
             pass
     calls = list({(a, b): (a, b, c) for a, b, c in calls}.values())
     return obj, env, calls, {"fit": name, "z": float(z), "delta_c": dc, "delta_halo": base["delta_halo"], "delta_halo_traced": (None if dh_traced is None else float(dh_traced)),
-                             "mdef": str(mdef), "Om0": float(cosmo.Om0), "params": params,
+                             "mdef": str(mdef), "Om0": float(cosmo.Om0), "params": params, "fsigma_isolated": iso_f,
                              "sigma": sigma.tolist(), "m": m.tolist(), "n_eff": neff.tolist()}, env_for
 
 
@@ -126,6 +139,8 @@ def run(ctx):
                 build_case.vary_definition = name in ("Tinker08", "Tinker10", "Behroozi", "Watson")
                 build_case.force_none = rep_ == 0          # the meaningful None (automatic amplitude) at least once per fit that has it
                 build_case.force_delta = [200.5, 400.97][rep_] if (rep_ < 2 and name in ("Tinker08", "Tinker10", "Behroozi")) else None
+                # fits that read the cosmology: two different cosmologies that share their astropy name, at the same redshift, one after the other
+                build_case.force_cosmo = (Planck15.clone(Om0=[0.25, 0.4][rep_], H0=[62.0, 74.0][rep_]), 1.0) if (rep_ < 2 and name in ("Watson", "Tinker08", "Tinker10", "Behroozi")) else None
                 try:
                     obj, env, calls, desc, env_for = build_case(r, name, meta, tup, ff, md, sp, Planck15)
                 except Exception as e:
@@ -138,12 +153,16 @@ def run(ctx):
                 if bad_p and not any(v["key"] == f"{name}/override-not-applied" for v in out["violations"]):
                     out["violations"].append({"key": f"{name}/override-not-applied", "what": f"{name}: user-supplied model parameter {bad_p[0]}={desc['params'][bad_p[0]]!r} is not what the instance uses (params[{bad_p[0]!r}] = {obj.params.get(bad_p[0])!r})",
                                               "replay": {"kind": "c06", "fit": name, "overrides": {k_: repr(v_) for k_, v_ in desc["params"].items()}}})
+                if desc.get("fsigma_isolated") is not None and not np.allclose(got, desc["fsigma_isolated"], rtol=1e-12, equal_nan=True):
+                    if not any(v["key"] == f"{name}/depends-on-earlier-instances" for v in out["violations"]):
+                        out["violations"].append({"key": f"{name}/depends-on-earlier-instances", "what": f"{name} at z={desc['z']}, Om0={desc['Om0']}: f(sigma) differs by up to {float(np.nanmax(np.abs(got / desc['fsigma_isolated'] - 1))):.3g} from the same instance inputs with the (identical) cosmology given under another name, after an instance with a different cosmology of the same astropy name was evaluated",
+                                                  "replay": {"kind": "c06", "case": {k_: v_ for k_, v_ in desc.items() if k_ not in ("sigma", "m", "n_eff", "fsigma_isolated")}}})
                 tr_ = desc.get("delta_halo_traced")
                 if tr_ is not None and not np.isclose(tr_, desc["delta_halo"], rtol=1e-12):
                     key_ = f"{name}/overdensity-seen-by-fit"
                     if not any(v["key"] == key_ for v in out["violations"]):
                         out["violations"].append({"key": key_, "what": f"{name}: the halo overdensity used inside the fit ({tr_:.6g}) is not the mass definition's overdensity w.r.t. the mean at the instance's redshift and cosmology ({desc['delta_halo']:.6g}; {desc['mdef']}, z={desc['z']}, Om0={desc['Om0']})",
-                                                  "replay": {"kind": "c06", "case": {k_: v_ for k_, v_ in desc.items() if k_ not in ("sigma", "m", "n_eff")}}})
+                                                  "replay": {"kind": "c06", "case": {k_: v_ for k_, v_ in desc.items() if k_ not in ("sigma", "m", "n_eff", "fsigma_isolated")}}})
                 if name in ("Tinker08", "Tinker10", "Behroozi"):
                     bad = check_interpolated_coefficients(name, obj, desc, env_for)
                     if bad and not any(v["key"] == bad["key"] for v in out["violations"]):
